@@ -240,4 +240,52 @@ Proof.
   pose proof B_pos. nia.
 Qed.
 
+(* the executable test of "no thread can take a step" used by the trace acceptor is sound *)
+Lemma ev_in_cands s e s' : step c s e = Some s' -> is_env e = false -> In e (cands s).
+Proof.
+  intros H He. unfold cands.
+  assert (G : forall i (g : nat -> ev), (i < length (ws s))%nat ->
+              In (g i) [ECreate i; EStart i; ELock1 i; EUnlock1 i; EConnBegin i; EConnOk i; EConnRefused i; EConnIntr i; EPollIntr i;
+                        EReport i; ERSigW i; EDestroy i; ELock0 i; ESignal i; EUnlock0 i; EWdKill i; ERSigS i] ->
+              In (g i) ([ELockD; EWaitD; EWokenD; EUnlockD; EExit; EWdWake; ESigTake; ESigMark; ELock1S; EUnlock1S; EExitS; ELock0S; EUnlock0S; ERaise] ++
+                        flat_map (fun i => [ECreate i; EStart i; ELock1 i; EUnlock1 i; EConnBegin i; EConnOk i; EConnRefused i; EConnIntr i; EPollIntr i;
+                                            EReport i; ERSigW i; EDestroy i; ELock0 i; ESignal i; EUnlock0 i; EWdKill i; ERSigS i])
+                                 (seq 0 (length (ws s))))).
+  { intros i g Hi Hin. apply in_or_app. right. apply in_flat_map. exists i. split; [apply in_seq; lia|exact Hin]. }
+  inv_step H; try discriminate He; try (apply in_or_app; left; cbn; tauto).
+  all: match goal with |- In (?g ?i) _ => apply (G i g); [|cbn; tauto] end.
+  all: try match goal with Hn : nth_error (ws _) _ = Some _ |- _ => apply nth_error_lt in Hn; exact Hn end.
+  all: match goal with Hf : first_from _ _ _ = Some _ |- _ =>
+         destruct (first_from_some _ _ _ _ Hf) as (_ & (w1 & Hw1 & _) & _); apply nth_error_lt in Hw1; exact Hw1 end.
+Qed.
+
+Lemma blockedb_sound s : blockedb c s = true -> ~ can_move c s.
+Proof.
+  unfold blockedb. intros Hb (e & s' & Hs & He). rewrite forallb_forall in Hb.
+  specialize (Hb e (ev_in_cands _ _ _ Hs He)). rewrite Hs in Hb. discriminate.
+Qed.
+
+(* an executable version of murun *)
+Fixpoint murunb (s : gst) (es : list ev) : option gst :=
+  match es with
+  | [] => Some s
+  | e :: r => if is_tick e && negb (calm s && blockedb c s) then None
+              else match step c s e with Some s' => murunb s' r | None => None end
+  end.
+Lemma murun_cons s e s1 es s' : step c s e = Some s1 -> (e = ETick -> calm s = true /\ ~ can_move c s) -> murun s1 es s' -> murun s (e :: es) s'.
+Proof.
+  intros Hs Ht U. induction U as [s1|s1 es s2 e' s3 U IH Hs' Ht'].
+  - change [e] with ([] ++ [e]). eapply mu_snoc; eauto. constructor.
+  - change (e :: es ++ [e']) with ((e :: es) ++ [e']). eapply mu_snoc; eauto.
+Qed.
+Lemma murunb_murun s es s' : murunb s es = Some s' -> murun s es s'.
+Proof.
+  revert s. induction es as [|e r IH]; intros s H; cbn [murunb] in H.
+  - inversion H; subst. constructor.
+  - destruct (is_tick e && negb (calm s && blockedb c s)) eqn:E; [discriminate|].
+    destruct (step c s e) as [s1|] eqn:Es; [|discriminate]. eapply murun_cons; [exact Es| |apply IH; exact H].
+    intros ->. cbn [is_tick andb] in E. destruct (calm s) eqn:Ec; [|discriminate]. destruct (blockedb c s) eqn:Eb; [|discriminate].
+    split; [reflexivity|apply blockedb_sound; exact Eb].
+Qed.
+
 End Clock.
